@@ -45,6 +45,8 @@ func vIsPrefix(a, b []string) bool {
 }
 
 func vC12(spec vSpec, maxPairs int, allowOverlap bool, wildOK bool, idxMax int) {
+	SetFieldSeparator([]string{":", "|"}[vChoose(2)]) // the key pair syntax is old:new whatever the sub-key separator
+	defer SetFieldSeparator()
 	m := vNondetMap(spec)
 	np := 1 + vChoose(maxPairs)
 	var pairs []string
